@@ -31,6 +31,23 @@ def guarded : Bool → Prog → Bool
   | h, .write _ :: r => h && guarded h r
   | _, .ret :: _ => false      -- checkpoints are not actions: programs are `strip`ped first
 
+/-- the pseudo-field factgen records where a program scans the Spec directories -/
+def fsScan : String := "fs:scan"
+
+/-- from here on, the index maps are published (`devices` written) before the mutex is released -/
+def publishesBeforeUnlock : Prog → Bool
+  | [] => false
+  | .unlock :: _ => false
+  | .write f :: r => f == "devices" || publishesBeforeUnlock r
+  | _ :: r => publishesBeforeUnlock r
+
+/-- every scan of the directories is followed, within the same critical section, by the publication of its
+result: scan and publication are one atomic step with respect to every other cache operation -/
+def scanPublishes : Prog → Bool
+  | [] => true
+  | .read f :: r => (f != fsScan || publishesBeforeUnlock r) && scanPublishes r
+  | _ :: r => scanPublishes r
+
 /-- the actions of a program, without the early-return checkpoints -/
 def strip (p : Prog) : Prog := p.filter (· != .ret)
 
